@@ -689,7 +689,8 @@ func (sel *Selection) Get() (val.Value, error) {
 // value is null.  Returns error if path is not found.
 func (sel *Selection) GetValue(pathOrIdent string) (val.Value, error) {
 	s, err := sel.Find(pathOrIdent)
-	if err != nil {
+	if err != nil || s == nil {
+		// nothing there (a list item or container on the way does not exist): no value
 		return nil, err
 	}
 	return s.Get()
